@@ -867,6 +867,10 @@ func Gen(c *core.Ctx) {
 		// a reply long after the timeout (400 ms) does not complete the call; measured default: argument 0 and an
 		// argument above 10 s last two seconds when nothing is received
 		"p0:4:400,w1000,e0", "p0:6:400,w1000,e0", "p0:4:0,p1:6:20000",
+		// the upper end of the accepted range, 10 s exactly, is a timeout of ten seconds and not the default: a reply
+		// parsed after 2.3 s completes both calls (bO: `timeout >= 10 s` in Ping6 went unnoticed - every scenario with
+		// the argument 10000 was answered after 40 ms, which the default of two seconds allows as well)
+		"p0:4:10000,p1:6:10000,w2300,e0,e1",
 	} {
 		add(c, "fixed", "ping.trace 0 scn="+s)
 	}
@@ -882,7 +886,7 @@ func Gen(c *core.Ctx) {
 	}
 	n += genMulti(c)
 	if c.First() {
-		c.Res.Extra["traces_validated_against_impl"] = n + 28
+		c.Res.Extra["traces_validated_against_impl"] = n + 29
 	}
 }
 
